@@ -225,8 +225,11 @@ def judge_case(case, meta):
                     v2, s2 = [], {}
                     _judge_result(r, sent_labels, want, meta, count, ttl, data,
                                   lambda key, text: v2.append((key, text)), lambda k2, n=1: s2.__setitem__(k2, s2.get(k2, 0) + n))
-                    if best is None or len(v2) < len(best[0]):
-                        best = (v2, s2, r)
+                    # the reply the result was taken from is the one whose answer section holds exactly the reported data
+                    data_ok = any(k2 in s2 for k2 in ("address_lists_checked", "ptr_names_checked", "lenient_parse_accepted"))
+                    rank = (0 if not v2 else 1 if data_ok else 2, len(v2))
+                    if best is None or rank < best[3]:
+                        best = (v2, s2, r, rank)
                     if not v2:
                         break
                 for key, text in best[0]:
